@@ -370,6 +370,8 @@ func dispatchOps() []Op {
 		{K: "cmd", Kind: "publish"}, {K: "cmd", Kind: "play"}, {K: "cmd", Kind: "call"}, {K: "cmd", Kind: "closeStream"},
 		{K: "ctl", Kind: "uc"}, {K: "ctl", Kind: "was"}, {K: "ctl", Kind: "spb"},
 		{K: "back", Kind: "onStatus"}, // server -> client command that is not a response
+		// chunk-size interplay: packets whose payload is an exact multiple of the sender's chunk size
+		{K: "ctl", Kind: "scs4"}, {K: "ctl", Kind: "scs5"}, {K: "cmd", Kind: "publish128"}, {K: "back", Kind: "scs1"},
 	}
 }
 
@@ -425,6 +427,14 @@ func runHistory(ops []Op) (key, what string, states []string) {
 				p := rtmp.NewCloseStreamPacket()
 				p.TransactionID = 8
 				pkt = p
+			case "scs4", "scs5":
+				p := rtmp.NewSetChunkSize()
+				p.ChunkSize = uint32(op.Kind[3] - '0')
+				pkt, wantType = p, "SetChunkSize"
+			case "publish128":
+				p := rtmp.NewPublishPacket()
+				p.TransactionID, p.StreamName = 5, amf0.String(strings.Repeat("n", 98)) // payload of exactly 128 bytes
+				pkt, wantType = p, "PublishPacket"
 			case "uc":
 				p := rtmp.NewUserControl()
 				p.EventType, p.EventData, p.ExtraData = rtmp.EventTypeSetBufferLength, 1, 3000
@@ -491,6 +501,15 @@ func runHistory(ops []Op) (key, what string, states []string) {
 			}
 			delete(out, op.Tid) // consumed exactly once
 		case "back":
+			if op.Kind == "scs1" {
+				p := rtmp.NewSetChunkSize()
+				p.ChunkSize = 1
+				got, _, err := sendAndDecode(B, A, p, 0)
+				if err != nil || typeName(got) != "SetChunkSize" {
+					return fail("dispatch/server-set-chunk-size", fmt.Sprintf("op %d %v: decoded as %v err=%v", i, op, got, err))
+				}
+				break
+			}
 			p := rtmp.NewCallPacket()
 			p.CommandName, p.TransactionID, p.CommandObject = "onStatus", 0, amf0.NewNull()
 			o := amf0.NewObject()
